@@ -1,6 +1,7 @@
 """C01 exactly one well-formed WSGI answer: obligations + correspondence of
 model/Dispatch.v on random scenarios + PEP 3333 monitor over hostile environs
 and handler programs."""
+import functools
 import io
 import re
 import threading
@@ -106,6 +107,13 @@ def run(ctx):
                 [{"error": "e"}, {"foo": 1}, {"realm": "R", "stale": True}]))
         return dc.act(prog)
 
+    class CallableObject:
+        def __init__(self, fun):
+            self.fun = fun
+
+        def __call__(self, *args):
+            return self.fun(*args)
+
     class RawInput:
         """a server's input stream: not a BytesIO, may end early"""
         def __init__(self, data):
@@ -130,13 +138,25 @@ def run(ctx):
             app.data_size = rng.choice([0, 2, 100])
         if rng.random() < 0.2:
             app.cached_size = rng.choice([0, 1, 7])
-        app.set_route("/x", lambda req, _p=prog: perform(_p), 511)
-        app.set_route("/d/<n:int>", lambda req, n, _p=prog: perform(_p), 511)
+        # any callable is a handler: plain function, functools.partial,
+        # instance with __call__ (no __name__, no __code__)
+        shape = rng.choice(["function", "function", "partial", "object"])
+
+        def as_callable(fun, shape=shape):
+            if shape == "partial":
+                return functools.partial(fun)
+            if shape == "object":
+                return CallableObject(fun)
+            return fun
+        app.set_route("/x", as_callable(
+            lambda req, _p=prog: perform(_p)), 511)
+        app.set_route("/d/<n:int>", as_callable(
+            lambda req, n, _p=prog: perform(_p)), 511)
         app.read_timeout = 0.3
         if rng.random() < 0.3:
-            app.add_before_response(lambda req: None)
+            app.add_before_response(as_callable(lambda req: None))
         if rng.random() < 0.3:
-            app.add_after_response(lambda req, res: res)
+            app.add_after_response(as_callable(lambda req, res: res))
         body = rng.choice([b"", b"abc", b'{"a": 1}', b"a=1&b=2",
                            b"--xx\r\nContent-Disposition: form-data; "
                            b"name=\"a\"\r\n\r\n1\r\n--xx--\r\n"])
@@ -165,6 +185,7 @@ def run(ctx):
                              if k not in env],
                   "clen": env.get("CONTENT_LENGTH"),
                   "ctype": env.get("CONTENT_TYPE"), "program": prog,
+                  "callable_shape": shape,
                   "config": cfg,
                   "headers": {k: v[:40] for k, v in env.items()
                               if k.startswith("HTTP_")}}
@@ -206,7 +227,9 @@ def run(ctx):
         "methods) compared with the model; plus hostile environ x handler "
         "program x configuration product sampled with the seeded PRNG and "
         "checked by a PEP 3333 oracle; distinct by full scenario",
-        assumptions=["user callables are plain functions",
+        assumptions=["user callables in the model runs are plain functions "
+                     "(the monitor also uses functools.partial and objects "
+                     "with __call__)",
                      "response objects handed in are fresh (used once)",
                      "iterables returned by handlers yield bytes (handler "
                      "contract); generators are finite"])
